@@ -118,6 +118,7 @@ struct World
   std::vector<SigPlan> sigs;
   void (*sigint_disposition)(int);
   uint64_t event_ceiling;
+  uint64_t stdout_ceiling;   // captured stdout lines (0 = unlimited)
   int heap_fill_mode; uint64_t heap_state;
   bool fill_enabled;
   bool in_child;
